@@ -260,6 +260,7 @@ def run(F, rep, tier):
         from . import arity
         arity.rule(F, rep, "C01.R5")
         arity.rule_default_env(F, rep, "C09.R4")
+        arity.rule_tables(F, rep, "C01.R5b")
     except ImportError:
         rep.note("C01.R5 (arity tables) not built yet")
     rule_r6(F, rep)
